@@ -9,7 +9,7 @@ Public API (used by the property builders C01/C02/C03/C04/C06/C09/C10):
     make_debiaser(config, years_LS=None)     a real ibicus debiaser instance for the configuration
     run_real(config, obs, H, F, years=None)  -> (kind, value, draws)   kind in {"ok", "error"}
     driver_line(config, obs, H, F, u=None, years=None)  -> the DrvDebiasers op line for the same numbers
-    parse_driver(line)            -> ("ok", [Fraction|None], [flag idx]) | ("undef",) | ("error", cls) | ("bad",)
+    parse_driver(line)            -> ("ok", [Fraction|None], [tie idx], [ill-conditioned idx]) | ("undef",) | ("error", cls) | ("bad",)
     gen_case(rng, config, stream) -> dict(obs, H, F, years)  dyadic inputs (k/64) suited to the configuration
     correspondence(rng, n_cases, tier, res, families=None) -> list of mismatch dicts
 
@@ -55,6 +55,9 @@ def _configs():
     for d in ("additive", "multiplicative"):
         add(f"LS-{d}", "LS", delta=d, data="pos" if d == "multiplicative" else "tas")
         add(f"DC-{d}", "DC", delta=d, data="pos" if d == "multiplicative" else "tas")
+    # the `else: raise ValueError` branch (reachable only by bypassing the attrs validator)
+    add("LS-invalid", "LS", delta="bogus", data="tas", invalid=True)
+    add("DC-invalid", "DC", delta="bogus", data="tas", invalid=True)
     for mt in ("parametric", "nonparametric"):
         for d in ("additive", "multiplicative", "no_detrending"):
             add(f"QM-{mt}-{d}", "QM", mapping=mt, detrending=d, data="pos" if d == "multiplicative" else "tas",
@@ -100,10 +103,13 @@ def make_debiaser(config, t=None, years_LS=None, censor_thr=None, pr_thr=None):
     t = 1e-10 if t is None else float(t)
     with warnings.catch_warnings():
         warnings.simplefilter("ignore")
-        if fam == "LS":
-            return LinearScaling(delta_type=config["delta"])
-        if fam == "DC":
-            return DeltaChange(delta_type=config["delta"])
+        if fam in ("LS", "DC"):
+            cls = LinearScaling if fam == "LS" else DeltaChange
+            if config.get("invalid"):
+                deb = cls(delta_type="additive")
+                object.__setattr__(deb, "delta_type", config["delta"])  # bypasses the validator
+                return deb
+            return cls(delta_type=config["delta"])
         if fam == "QM":
             return QuantileMapping(distribution=FAM.RatSigmoid() if config["param"] else None, mapping_type=config["mapping"],
                                    detrending=config["detrending"], cdf_threshold=t)
@@ -200,7 +206,8 @@ def driver_line(config, obs, H, F, u=None, years=None, t=None, years_LS=None, ce
     o, h, f = C.rlist(obs), C.rlist(H), C.rlist(F)
     t = C.rat(1e-10 if t is None else float(t))
     if fam in ("LS", "DC"):
-        return f"{'ls' if fam == 'LS' else 'dc'} {config['delta']} {o} {h} {f}"
+        op = ("ls" if fam == "LS" else "dc") + ("s" if config.get("invalid") else "")
+        return f"{op} {config['delta']} {o} {h} {f}"
     if fam == "QM":
         return f"qm {config['mapping']} {config['detrending']} {t} {o} {h} {f}"
     if fam == "ECDFM":
@@ -233,8 +240,9 @@ def parse_driver(line):
         return ("error", line[6:])
     if " ties=" not in line:
         return ("bad", line[:200])
-    vals, ties = line.split(" ties=")
-    return ("ok", C.parse_list(vals, Fraction), C.parse_list(ties, int))
+    vals, rest = line.split(" ties=")
+    ties, ill = rest.split(" ill=") if " ill=" in rest else (rest, "-")
+    return ("ok", C.parse_list(vals, Fraction), C.parse_list(ties, int), C.parse_list(ill, int))
 
 
 # ------------------------------------------------------------------ generators (all values k/64)
@@ -261,12 +269,12 @@ def _series(rng, n, kind, centre, width, ties):
     return _distinct(rng, n, lo, hi, 1 if kind != "tas" else -KMAX)
 
 
-def _pr_series(rng, n, thr_k, ties, p_dry=None, all_dry=False):
+def _pr_series(rng, n, thr_k, ties, p_dry=None, all_dry=False, min_rainy=0):
     """precipitation-like: zeros, drizzle below the threshold, rainy values above (k/64)"""
     p_dry = rng.choice([0.0, 0.1, 0.3, 0.5, 0.8]) if p_dry is None else p_dry
     p_driz = rng.choice([0.0, 0.1, 0.2])
     hi = rng.choice([200, 1000, 4000, KMAX])
-    rainy_pool = _distinct(rng, n, thr_k, max(hi, thr_k + n + 5))
+    rainy_pool = _distinct(rng, n, thr_k, max(hi, thr_k + n + 5), 1)
     ks = []
     for i in range(n):
         r = rng.random()
@@ -276,6 +284,17 @@ def _pr_series(rng, n, thr_k, ties, p_dry=None, all_dry=False):
             ks.append(rng.randint(1, thr_k - 1))
         else:
             ks.append(rng.choice(rainy_pool[: max(2, n // 3)]) if ties else rainy_pool[i])
+    if not all_dry:
+        # at least `min_rainy` distinct rainy values (so that the fitted scale is not zero)
+        idx = list(range(n))
+        rng.shuffle(idx)
+        have = {k for k in ks if k >= thr_k}
+        for i in idx:
+            if len(have) >= min(min_rainy, n):
+                break
+            if ks[i] < thr_k:
+                ks[i] = rainy_pool[i]
+                have.add(ks[i])
     return ks
 
 
@@ -321,17 +340,21 @@ def gen_case(rng, config, stream="main", tier="quick"):
     """dyadic inputs for one case. stream: "main" (tie-free, |z| <= 20) | "ties" (repeated values, future values far
     outside the historical range)"""
     data = config["data"]
-    ties = stream == "ties" and not config.get("tiefreeF")
+    ties = stream == "ties"
+    # rank-based methods (SDM): the future series is tie-free (numpy's argsort is not stable) except in a small part
+    # of the "ties" stream, where the driver must flag the tied elements
+    tiesF = ties and (not config.get("tiefreeF") or rng.random() < 0.3)
     for _attempt in range(50):
         nO, nH, nF = gen_lengths(rng, tier)
         extra = {}
         if data == "pr":
             thr_k = rng.choice([1, 4, 16, 64])
             allow_dry = config["family"] == "SDMrel" and rng.random() < 0.04
-            obs = _pr_series(rng, nO, thr_k, ties)
-            H = _pr_series(rng, nH, thr_k, ties, all_dry=allow_dry and rng.random() < 0.5)
-            F = _pr_series(rng, nF, thr_k, ties and not config.get("tiefreeF"), all_dry=allow_dry and rng.random() < 0.5)
-            if config.get("tiefreeF"):
+            mr = 0 if (allow_dry or config["family"] != "SDMrel") else rng.choice([2, 3, 3, 5])
+            obs = _pr_series(rng, nO, thr_k, ties, min_rainy=mr)
+            H = _pr_series(rng, nH, thr_k, ties, all_dry=allow_dry and rng.random() < 0.5, min_rainy=mr)
+            F = _pr_series(rng, nF, thr_k, tiesF, all_dry=allow_dry and rng.random() < 0.5, min_rainy=mr)
+            if config.get("tiefreeF") and not tiesF:
                 # rank-based method: tie-free among the values that matter (rainy); zeros may repeat
                 seen, F2 = set(), []
                 for k in F:
@@ -347,15 +370,15 @@ def gen_case(rng, config, stream="main", tier="quick"):
             far = stream == "ties"
             shiftH = rng.randint(-3 * width, 3 * width) if not far else rng.randint(-width, width)
             shiftF = rng.randint(-3 * width, 3 * width) if not far else rng.choice([-1, 1]) * rng.randint(width, 6 * width)
-            wH = max(n_ := 10, int(width * rng.choice([0.4, 0.7, 1, 1.5, 2.5])))
+            wH = max(10, int(width * rng.choice([0.4, 0.7, 1, 1.5, 2.5])))
             wF = max(10, int(width * rng.choice([0.4, 0.7, 1, 1.5, 2.5])))
             obs = _series(rng, nO, data, cO, width, ties)
             H = _series(rng, nH, data, cO + shiftH, wH, ties)
-            F = _series(rng, nF, data, cO + shiftF, wF, ties and not config.get("tiefreeF"))
+            F = _series(rng, nF, data, cO + shiftF, wF, tiesF)
         obs, H, F = ([k / 64.0 for k in s] for s in (obs, H, F))
         if config.get("param") and _zmax([obs, H, F]) > 20:
             continue
-        if config["family"] == "SDMabs" and (len(set(F)) < len(F)):
+        if config["family"] == "SDMabs" and not tiesF and (len(set(F)) < len(F)):
             continue
         case = dict(obs=obs, H=H, F=F, years=None, **extra)
         if config.get("param") or config["family"] == "SDMrel":
@@ -399,7 +422,8 @@ def compare(config, case, kind, value, model_line, stats):
     if parsed[0] == "undef":
         st["undef"] += 1
         return None
-    _, mvals, flags = parsed
+    _, mvals, flags, ill = parsed
+    ill = set(ill)
     if len(mvals) != value.size:
         return {**info, "impl": f"length {value.size}", "model": f"length {len(mvals)}", "why": "length"}
     flags = set(flags)
@@ -414,9 +438,10 @@ def compare(config, case, kind, value, model_line, stats):
                 bad.append((i, v, None))
             continue
         mf = float(m)
-        if np.isfinite(v) and abs(mf) > 1e6 * (1 + scale) and abs(v - mf) <= 1e-5 * abs(mf):
-            # ppf at a cdf value clipped to 1e-10 / 1 - 1e-10: the float code evaluates 1 - |2p - 1| with a relative
-            # error of ~1e-6 (cancellation), amplified to the output; compared with a relative tolerance and counted
+        if i in ill and np.isfinite(v) and abs(v - mf) <= 1e-5 * abs(mf) + 1e-9 * (1 + scale):
+            # ppf at a cdf value clipped to 1e-10 / 1 - 1e-10 (flagged by the driver): the float code evaluates
+            # 1 - |2p - 1| with a relative error of ~1e-6 (cancellation), amplified to the output; compared with a
+            # relative tolerance and counted
             st["ill_conditioned_elements"] += 1
         elif not np.isfinite(v) or abs(v - mf) > 1e-9 * (1 + max(scale, abs(mf))):
             bad.append((i, v, mf))
@@ -427,6 +452,18 @@ def compare(config, case, kind, value, model_line, stats):
         return {**info, "impl": [b[1] for b in bad[:5]], "model": [b[2] for b in bad[:5]], "index": [b[0] for b in bad[:5]],
                 "n_bad": len(bad), "why": "values"}
     return None
+
+
+def run_driver_parallel(lines, batch=250, workers=6):
+    """the driver is a pure line-by-line function: run batches in a few parallel processes"""
+    from concurrent.futures import ThreadPoolExecutor
+
+    chunks = [lines[i:i + batch] for i in range(0, len(lines), batch)]
+    if len(chunks) <= 1:
+        return C.run_driver(DRIVER, lines) if lines else []
+    with ThreadPoolExecutor(max_workers=workers) as ex:
+        outs = list(ex.map(lambda ch: C.run_driver(DRIVER, ch), chunks))
+    return [x for o in outs for x in o]
 
 
 def correspondence(rng, n_cases, tier, res, families=None, ties_fraction=0.25):
@@ -454,10 +491,7 @@ def correspondence(rng, n_cases, tier, res, families=None, ties_fraction=0.25):
             res.count((config["name"], stream, len(case["obs"]) // 8, len(case["H"]) // 8, len(case["F"]) // 8), True,
                       sample={"config": config["name"], "nO": len(case["obs"]), "nH": len(case["H"]), "nF": len(case["F"])})
     try:
-        out = []
-        B = 400
-        for i in range(0, len(lines), B):
-            out += C.run_driver(DRIVER, lines[i:i + B])
+        out = run_driver_parallel(lines)
     except (C.DriverError, Exception) as ex:  # noqa: BLE001
         return [{"config": "driver", "why": f"{type(ex).__name__}: {str(ex)[:500]}"}]
     for (config, case, kind, value, stream), line in zip(todo, out):
